@@ -79,9 +79,11 @@ def serviceJson (s : Service) : Json :=
               ("client_name", jstr s.clientName), ("async_client_name", jstr s.asyncClientName),
               ("methods", jarr (s.methods.map methodJson))]
 
-def protoJson (p : Proto) : Json :=
+def protoJson (api : Api) (p : Proto) : Json :=
   Json.mkObj [("name", jstr p.name), ("services", jarr (p.services.map serviceJson)),
-              ("messages", jarr (p.messages.map jnat)), ("enums", jarr (p.enums.map jnat))]
+              ("messages", jarr (p.messages.map jnat)), ("enums", jarr (p.enums.map jnat)),
+              ("top_messages", jarr ((p.topMessages api).map jnat)), ("top_enums", jarr ((p.topEnums api).map jnat)),
+              ("emitted", jarr ((p.emitted api).map jnat))]
 
 def errJson : SettingsErr → Json
   | .duplicate => Json.str "duplicate"
@@ -95,18 +97,18 @@ def opAllowlist (j : Json) : Except String Json := do
   let api ← apiOfJson (← j.getObjVal? "api")
   let listed ← strList j "listed"
   pure (Json.mkObj [("allowlist", jarr ((allowlist api listed).map jnat)),
-                    ("wf", Json.bool (api.wf listed)), ("wf_addrs", Json.bool (api.wfAddrs listed)),
+                    ("wf", Json.bool (api.wf listed)), ("wf_addrs", Json.bool (api.wfAddrs listed)), ("wf_services", Json.bool api.wfServices),
                     ("roots", jnat (api.roots listed).length), ("fuel", jnat api.fuel)])
 
 def opPrune (j : Json) : Except String Json := do
   let api ← apiOfJson (← j.getObjVal? "api")
   let al ← natList j "allowlist"
-  pure (Json.mkObj [("protos", jarr (api.protos.map fun p => optJson protoJson (pruneProto al p)))])
+  pure (Json.mkObj [("protos", jarr (api.protos.map fun p => optJson (protoJson api) (pruneProto al p)))])
 
 def opInternal (j : Json) : Except String Json := do
   let api ← apiOfJson (← j.getObjVal? "api")
   let pub ← strList j "public"
-  pure (Json.mkObj [("protos", jarr (api.protos.map fun p => protoJson (p.withInternal pub)))])
+  pure (Json.mkObj [("protos", jarr (api.protos.map fun p => protoJson api (p.withInternal pub)))])
 
 def opValidate (j : Json) : Except String Json := do
   let allM ← strList j "all_methods"
@@ -121,7 +123,7 @@ def opThirdPass (j : Json) : Except String Json := do
   match thirdPass api settings pp pkg with
   | .rejected errs => pure (Json.mkObj [("outcome", Json.str "rejected"), ("errors", errsJson errs)])
   | .unchanged => pure (Json.mkObj [("outcome", Json.str "unchanged")])
-  | .built ps => pure (Json.mkObj [("outcome", Json.str "built"), ("protos", jarr (ps.map protoJson))])
+  | .built ps => pure (Json.mkObj [("outcome", Json.str "built"), ("protos", jarr (ps.map (protoJson api)))])
 
 def opName (j : Json) : Except String Json := do
   let name ← getStrL j "name"
